@@ -5,7 +5,7 @@ odml = W.odml
 from odml import dtypes
 
 TEXT = {"none": None, "X": "Amplifier gain", "Xv": "amplifier   GAIN", "Y": "Something else"}
-VALS = {"v12": [1, 2], "v23": [2, 3], "v45": [4, 5], "text": ["abc"], "empty": [], "float": [2.5, 3.0]}
+VALS = {"v12": [1, 2], "v23": [2, 3], "v45": [4, 5], "text": ["abc"], "empty": [], "float": [2.5, 3.0], "mixed": ["3", "x"]}
 
 
 def norm(t):
